@@ -1959,6 +1959,8 @@ rrul_fill_Hly(echs_instant_t *restrict tgt, size_t nti, rrulsp_t rr)
 		__CPROVER_assigns(iS, iM, auto_m, res, __CPROVER_object_upto(tgt, 2U * GRP_CCH_OFF * sizeof(*tgt)))
 		__CPROVER_loop_invariant(
 			iS <= e.nS && iM < e.nM && res <= nti &&
+			/* past the first round the macros' own index is parked */
+			(auto_m == (size_t)-2U || iS < e.nS) &&
 			VERIF_DLY_SLOT_OK(tgt, verif_k, res, proto, rr->until))
 		__CPROVER_decreases((long)e.nM - (long)iM, (long)e.nS - (long)iS)
 #endif	/* ECHSE_VERIF */
@@ -2202,6 +2204,8 @@ rrul_fill_Mly(echs_instant_t *restrict tgt, size_t nti, rrulsp_t rr)
 		__CPROVER_assigns(iS, auto_m, auto_h, res, __CPROVER_object_upto(tgt, 2U * GRP_CCH_OFF * sizeof(*tgt)))
 		__CPROVER_loop_invariant(
 			iS <= e.nS && res <= nti &&
+			/* past the first round the macros' own indices are parked */
+			((auto_m == (size_t)-2U && auto_h == (size_t)-2U) || iS < e.nS) &&
 			VERIF_DLY_SLOT_OK(tgt, verif_k, res, proto, rr->until))
 		__CPROVER_decreases((long)e.nS - (long)iS)
 #endif	/* ECHSE_VERIF */
